@@ -127,6 +127,7 @@ inductive Stmt
   | update (sets : List (Nat × SetE)) (w : Cond)
   | delete (w : Cond)
   | insert (rows : List (List Expr))      -- full rows, one expression per column (lit / par)
+  | failing (s : Stmt)                    -- a statement the database fails (deadlock, lock wait timeout, …)
   deriving Repr
 
 inductive SqlErr | dupKey | other
@@ -146,5 +147,6 @@ def apply (sc : Schema) (t : Table) (args : Args) : Stmt → Except SqlErr (Tabl
     match go t news with
     | some t' => .ok (t', news.length)
     | none => .error .dupKey
+  | .failing _ => .error .other
 
 end Seata.DB
